@@ -645,12 +645,12 @@ def trace_validate(ctx, tie, exe, args, timeout=1200, max_report=3):
         if len(rep) != len(reqs):
             mism.append({"trace": 0, "line": "<driver>", "model": "reply count %d != %d" % (len(rep), len(reqs))})
         else:
-            for (tn, text), r in zip(idx, rep):
+            for pos, ((tn, text), r) in enumerate(zip(idx, rep)):
                 if r not in ("ok", "skip") and tn not in bad_traces:
                     bad_traces.add(tn)
                     if len(mism) < max_report:
-                        ctxl = [t for (n, t) in idx if n == tn]
-                        k = ctxl.index(text) if text in ctxl else 0
+                        ctxl = [t for (n, t) in idx[:pos + 1] if n == tn]
+                        k = len(ctxl) - 1
                         mism.append({"trace": tn, "desc": descs.get(tn, ""), "line": text, "model": r,
                                      "prefix": ctxl[max(0, k - 25):k + 1]})
             accepted = traces - len(bad_traces)
